@@ -16,6 +16,18 @@ THEOREMS = [
     "IwModel.C02.cursor_del_spec",
     "IwModel.C02.cursor_write_nothing",
     "IwModel.C02.position_local",
+    # bridge to C19: the same for the comparator the store uses, no comparator hypothesis
+    "IwModel.C02.seek_eq_spec_on",
+    "IwModel.C02.seek_ge_spec_on",
+    "IwModel.C02.cursor_write_spec_on",
+    "IwModel.C02.store_scan",
+    "IwModel.C02.plain_scan_next",
+    "IwModel.C02.compound_scan_next",
+    "IwModel.C02.vnum_scan_next",
+    "IwModel.C02.real_scan_next",
+    "IwModel.C02.store_seek_eq",
+    "IwModel.C02.store_seek_ge",
+    "IwModel.C02.store_cursor_write",
 ]
 MANIFEST = dict(
     level="proof",
